@@ -47,10 +47,11 @@ class St:
 
 class Tr:
     __slots__ = ('i', 'src', 'tgt', 'event', 'prio', 'guard', 'sends', 'pre', 'post', 'inv', 'bump',
-                 'tg_after', 'tg_idle', 'tobs', 'gform', 'tinv_idle', 'noact')
+                 'tg_after', 'tg_idle', 'tobs', 'gform', 'tinv_idle', 'noact', 'ci')
 
     def __init__(self, i, src, tgt, event, prio, guard):
         self.i = i
+        self.ci = i             # index written into the generated code; differs from i only for an exact duplicate (C04)
         self.src = src
         self.tgt = tgt
         self.event = event
@@ -71,7 +72,8 @@ class Tr:
     def as_tuple(self):
         return (self.i, self.src, self.tgt, self.event, self.prio, self.guard, tuple(self.sends),
                 tuple(self.pre), tuple(self.post), tuple(self.inv), self.bump, self.tg_after, self.tg_idle, self.tobs, self.gform) + \
-            ((self.tinv_idle,) if self.tinv_idle is not None else ()) + (('noact',) if self.noact else ())
+            ((self.tinv_idle,) if self.tinv_idle is not None else ()) + (('noact',) if self.noact else ()) + \
+            ((('dup', self.ci),) if self.ci != self.i else ())
 
 
 class Spec:
@@ -354,6 +356,13 @@ def gen_spec(st, cfg):
             srcs_out = [n for n in outside if sp.kind(n) in SOURCES]
             if srcs_out:
                 add(st.pick(srcs_out), h)
+            # nested history: when the parent of p remembers too, a sibling of p leads straight to h - what p remembered must
+            # survive a round trip through the outer history state
+            pp = sp.states[p].parent
+            if pp is not None and any(sp.kind(c) in HIST for c in sp.states[pp].children):
+                sibs = [c for c in sp.states[pp].children if c != p and sp.kind(c) in SOURCES]
+                if sibs and st.flag(1, 2):
+                    add(st.pick(sibs), h)
     decorate(sp, st, cfg, events)
     return sp
 
@@ -499,9 +508,9 @@ def exit_code(s):
 def action_code(t):
     if t.noact:
         return None
-    lines = ['P.act(%d, event)' % t.i]
+    lines = ['P.act(%d, event)' % t.ci]
     if t.tobs:
-        lines.append('P.obs(%r, time)' % ('act:%d' % t.i))
+        lines.append('P.obs(%r, time)' % ('act:%d' % t.ci))
     if t.bump:
         lines.append('v = v + 3')
         lines.append('w.append(v)')
@@ -515,15 +524,15 @@ def guard_code(t):
     if not t.guard:
         return None
     if t.gform == 'brace':
-        return 'P.guard(%d, event) in {True}' % t.i
+        return 'P.guard(%d, event) in {True}' % t.ci
     if t.gform:
-        return 'P.g(%d)' % t.i
+        return 'P.g(%d)' % t.ci
     if t.tg_after is not None or t.tg_idle is not None:
         return 'P.tguard(%d, event, %s, %s, time)' % (
-            t.i,
+            t.ci,
             'after(%r)' % t.tg_after if t.tg_after is not None else 'None',
             'idle(%r)' % t.tg_idle if t.tg_idle is not None else 'None')
-    return 'P.guard(%d, event)' % t.i
+    return 'P.guard(%d, event)' % t.ci
 
 
 def ttinv_code(i, d):
